@@ -4,3 +4,11 @@ pub mod acceptable_master;
 pub mod bmca;
 pub mod dataset_comparison;
 pub mod foreign_master;
+
+#[cfg(feature = "verif")]
+pub(crate) fn verif_compare(
+    a: crate::verif::CmpInput,
+    b: crate::verif::CmpInput,
+) -> dataset_comparison::DatasetOrdering {
+    dataset_comparison::verif_dataset(a).compare(&dataset_comparison::verif_dataset(b))
+}
